@@ -13,6 +13,24 @@ from xsdata.models.enums import DataType
 from xsdata.utils.constants import return_input
 
 
+class XsiCache(defaultdict):
+    """Index of the imported binding models by their xsi:type qualified name.
+
+    The index carries the number of loaded modules it was built for,
+    so that it can be published, validated and replaced as one object.
+
+    Attributes:
+        sys_modules: The number of loaded sys modules when it was built
+    """
+
+    __slots__ = ("sys_modules",)
+
+    def __init__(self, sys_modules: int = 0):
+        """Initialize the index."""
+        super().__init__(list)
+        self.sys_modules = sys_modules
+
+
 class XmlContext:
     """The models context class.
 
@@ -37,7 +55,6 @@ class XmlContext:
         "class_type",
         "element_name_generator",
         "models_package",
-        "sys_modules",
         "xsi_cache",
     )
 
@@ -54,15 +71,18 @@ class XmlContext:
         self.class_type = class_types.get_type(class_type)
 
         self.cache: dict[Any, XmlMeta] = {}
-        self.xsi_cache: dict[str, list[type]] = defaultdict(list)
+        self.xsi_cache: XsiCache = XsiCache()
         self.models_package = models_package
-        self.sys_modules = 0
 
     def reset(self) -> None:
         """Reset all internal caches."""
         self.cache.clear()
-        self.xsi_cache.clear()
-        self.sys_modules = 0
+        self.xsi_cache = XsiCache()
+
+    @property
+    def sys_modules(self) -> int:
+        """Return the number of loaded sys modules the xsi cache was built for."""
+        return self.xsi_cache.sys_modules
 
     def get_builder(
         self,
@@ -101,13 +121,19 @@ class XmlContext:
 
         return self.build(subclass, parent_ns) if subclass else meta
 
-    def build_xsi_cache(self) -> None:
-        """Index all imported data classes by their xsi:type qualified name."""
-        sys_modules = len(sys.modules)
-        if sys_modules == self.sys_modules:
-            return
+    def build_xsi_cache(self) -> XsiCache:
+        """Index all imported data classes by their xsi:type qualified name.
 
-        xsi_cache: dict[str, list[type]] = defaultdict(list)
+        Returns:
+            The index for the currently loaded modules. Callers must use the
+            returned index, a concurrent build may replace the shared one.
+        """
+        sys_modules = len(sys.modules)
+        xsi_cache = self.xsi_cache
+        if xsi_cache.sys_modules == sys_modules:
+            return xsi_cache
+
+        xsi_cache = XsiCache(sys_modules)
         builder = self.get_builder()
         for clazz in self.get_subclasses(object):
             if self.is_binding_model(clazz):
@@ -119,7 +145,7 @@ class XmlContext:
         # Publish the complete index with a single assignment, so that
         # concurrent lookups never observe it cleared or half-built.
         self.xsi_cache = xsi_cache
-        self.sys_modules = sys_modules
+        return xsi_cache
 
     def is_binding_model(self, clazz: type[T]) -> bool:
         """Return whether the clazz is a binding model.
@@ -162,8 +188,7 @@ class XmlContext:
             A list of the matched classes.
         """
         if not DataType.from_qname(qname):
-            self.build_xsi_cache()
-            xsi_cache = self.xsi_cache
+            xsi_cache = self.build_xsi_cache()
             if qname in xsi_cache:
                 return xsi_cache[qname]
 
@@ -198,10 +223,10 @@ class XmlContext:
             local_names = {var.local_name for var in meta.get_all_vars()}
             return len(local_names - field_names)
 
-        self.build_xsi_cache()
+        xsi_cache = self.build_xsi_cache()
         choices = [
             (clazz, get_field_diff(clazz))
-            for types in self.xsi_cache.values()
+            for types in xsi_cache.values()
             for clazz in types
             if self.local_names_match(field_names, clazz)
         ]
